@@ -411,6 +411,15 @@ PROPS["C12"] = dict(
           "text YYYY / YYYYMM / YYYYMMDD / HH / HHMM / HHMMSS / HHMMSS.F{1..6} of every valid value parses back to exactly that value "
           "with that precision, consuming the whole text",
           expected_verified=11),
+        V("C12.date_range", "c12_date_range.vrs",
+          "<DicomDate as AsRange>::earliest / latest for every valid partial date: first / last day of the year or month (Gregorian month "
+          "lengths and leap rule written in the contract), or the day itself; Err exactly when the day does not exist in that month",
+          expected_verified=5),
+        V("C12.time_range", "c12_time_range.vrs",
+          "<DicomTime as AsRange>::earliest / latest for every valid partial time incl. leap seconds (second 60) and fractions of 1-6 "
+          "digits: both exist; in microseconds since midnight earliest = missing components 0, latest = missing minute/second 59 and "
+          "missing fraction digits 9 (so earliest <= latest and every consistent precise time lies between them)",
+          expected_verified=13, witness=dict(cmd=_W % "c12_time_range")),
         K("C12.parse_kani_crosscheck", "ext", ["c12::c12_parse_date_y", "c12::c12_parse_time_h"],
           "cross-check on the compiled code, including the real read_number: YYYY and HH texts (all digit strings)",
           timeout=600, tier="thorough"),
@@ -419,9 +428,12 @@ PROPS["C12"] = dict(
         "read_number is an abstract callee in the Verus unit (decimal value of 1..=9 ASCII digits); its real body is exercised only by the Kani cross-check for 2- and 4-digit texts",
         "the constructor contracts used by the Verus unit are those proved by C12.constructors (from_hmsf, pub(crate), is assumed: valid components and fraction < 10^precision => Ok with those fields)",
         "buf.iter().position(..), usize::min, u8::try_from(n).unwrap() replaced by shims with the same meaning",
+        "chrono: NaiveDate::from_ymd_opt is Some exactly for existing Gregorian dates; the number of days between the first days of two consecutive months is the length of the month (ASSUMED)",
+        "AsRange trait-impl methods of DicomDate / DicomTime verified as inherent methods",
+        "chrono: NaiveTime::from_hms_micro_opt is Some iff hour<24, min<60, sec<60 and micro<10^6, or sec==59 and micro<2*10^6 (leap second representation; ASSUMED)",
     ],
     uncovered=["to_encoded (format!): text produced from a value — Kani exceeds its budget in the fmt machinery",
-               "date-time values, time-zone offsets (chrono FixedOffset)", "AsRange earliest/latest (chrono NaiveDate/NaiveTime arithmetic)",
+               "date-time values, time-zone offsets (chrono FixedOffset)", "AsRange for DicomDateTime (chrono DateTime/FixedOffset arithmetic)",
                "range texts A-B, A-, -B (parse_date_range / parse_time_range)", "encoded text length == reported length"],
 )
 
@@ -503,6 +515,14 @@ PROPS["C09"] = dict(
           "(Explicit VR LE header size + even-padded value length): OB version 12+2, four UIs 8+n, optional SH/AE/AE/AE/UI 8+n, "
           "optional private information OB 12+n; dicom_len == even(byte length)",
           expected_verified=5),
+        N("C09.written_length",
+          "cp /repo/Cargo.lock /verif/witness/Cargo.lock && CARGO_TARGET_DIR=/verif/build/witness cargo run --offline -q --release "
+          "--manifest-path /verif/witness/Cargo.toml --bin c09_written_length 2>&1 | grep -E '^(WITNESS|EXHAUSTIVE|error)' | tail -12",
+          "tables built by the real builder, written by the real FileMetaTable::write and read back by from_reader: recorded group length == "
+          "bytes that follow the group length element == table.information_group_length, and the table read back is equal",
+          bound="972 tables: every presence combination of the optional attributes with even- and odd-length values (native enumeration; survives "
+                "restructurings of the computation that the extraction cannot follow; not a deductive result)",
+          fns=[("object/src/meta.rs", "calculate_information_group_length"), ("object/src/meta.rs", "write", r"impl\s+FileMetaTable")]),
     ],
     assumptions=["string byte lengths are abstract (Verus has no str byte reasoning); strings <= 65535 bytes, private information < 2 GiB (preconditions)",
                  "header sizes 8 (UI, SH, AE) and 12 (OB) are those proved for the real Explicit VR LE encoder in C03",
@@ -620,6 +640,13 @@ PROPS["C27"] = dict(
           expected_verified=5),
         V("C27.read_pdu_head", "c25_read_pdu_head.vrs",
           "the callee's framing: every strict prefix of header + declared content reads as incomplete (shared with C25)", expected_verified=6),
+        N("C27.segmentations",
+          "cp /repo/Cargo.lock /verif/witness/Cargo.lock && CARGO_TARGET_DIR=/verif/build/witness cargo run --offline -q --release "
+          "--manifest-path /verif/witness/Cargo.toml --bin c27_segmentations 2>&1 | grep -E '^(WITNESS|EXHAUSTIVE|error)' | tail -12",
+          "a fixed stream of three PDUs (A-RELEASE-RQ, P-DATA, A-ABORT) handed to the real read_pdu_from_wire in EVERY segmentation with at most "
+          "three cut points: successive receives return exactly the three PDUs in order, then end of stream, nothing left over",
+          bound="7807 segmentations of one 37-byte stream (native enumeration of the compiled code, incl. the real BufReader and read_pdu; not a deductive result)",
+          fns=[("ul/src/association/mod.rs", "read_pdu_from_wire")]),
     ],
     assumptions=[
         "read_pdu is represented by the contract first_pdu (decoded PDU + size, None when incomplete); ASSUMED axiom: a complete PDU at the head of a byte "
